@@ -70,6 +70,7 @@ theorem book_nbw (s : S) (op : UOp) (o : Option Nat) (ok : Bool) :
   | nbrInit h sl => cases o <;> exact Or.inl ⟨rfl, rfl⟩
   | ncStart h a t => cases o <;> exact Or.inl ⟨rfl, rfl⟩
   | hqStart h a pl => cases o <;> exact Or.inl ⟨rfl, rfl⟩
+  | hqsStart h a pl hl => cases o <;> exact Or.inl ⟨rfl, rfl⟩
   | _ => exact Or.inl ⟨rfl, rfl⟩
 
 theorem look_drop_ne (t : List (Nat × Nat)) {h h' : Nat} (hne : h' ≠ h) : look (UpStep.drop t h) h' = look t h' := by
@@ -109,6 +110,7 @@ theorem callOf_is_reserve {s : S} {op : UOp} {wid len : Nat} (hc : callOf s op =
   | nbwInit hh sl => obtain ⟨_, _, _, h⟩ := callOf_nbwInit hc; cases h
   | ncStart hh a tm => obtain ⟨_, _, h⟩ := callOf_ncStart hc; cases h
   | hqStart hh a pl => obtain ⟨_, _, h⟩ := callOf_hqStart hc; cases h
+  | hqsStart hh a pl hl => obtain ⟨_, _, h⟩ := callOf_hqsStart hc; cases h
   | nbrWait hh l => obtain ⟨_, _, _, _, _, _, _, h⟩ := callOf_nbrWait hc; cases h
   | nbwReserve hh l =>
     obtain ⟨wid', x, h1, h2, h3, h⟩ := callOf_nbwReserve hc
